@@ -144,6 +144,8 @@ func lpCaps(kind string) lpItem {
 		b = srv.Capability(srv.CapEntry{Type: 1, Mask: srv.MaskWith(14, lpReqBits...)}, srv.CapEntry{Type: 2, Mask: make([]byte, 14)})
 	case "response-omitted":
 		b = srv.Capability(srv.CapEntry{Type: 1, Mask: srv.MaskWith(14, lpReqBits...)})
+	case "response-empty":
+		b = srv.Capability(srv.CapEntry{Type: 1, Mask: srv.MaskWith(14, lpReqBits...)}, srv.CapEntry{Type: 2, Mask: []byte{}})
 	default:
 		b = srv.Capability(srv.CapEntry{Type: 1, Mask: srv.MaskWith(14, lpReqBits...)}, srv.CapEntry{Type: 2, Mask: srv.MaskWith(14, lpRespBits...)})
 	}
@@ -336,7 +338,7 @@ scan:
 	switch rest[i].Caps {
 	case "all-zero":
 		return "reject", "round 2: all-zero capabilities"
-	case "request-zero", "response-zero", "response-omitted":
+	case "request-zero", "response-zero", "response-omitted", "response-empty":
 		if unspec == "" {
 			unspec = "one capability type is all zero or missing"
 		}
